@@ -240,6 +240,10 @@ class C07(netlib.Guarded, Prop):
             c = netlib.gen_default_net(rng)
             c["f"] = "prov"
             cases.append(c)
+        # get_entity_ids on entities with / without a persistent id (0 included: the test is a truthiness test)
+        for _ in range({"quick": 40, "thorough": 300, "extended": 100}[tier]):
+            cases.append({"f": "ids", "l": [rng.choice([None, None, 0, rng.randrange(1, 50), rng.randrange(1, 10 ** 6)])
+                                            for _ in range(rng.randrange(0, 7))]})
         # executions WITH recovery: the generator of C16 (pipelines / scatter-gather / diamonds of Schedule, Transfer,
         # Execute steps on a volatile local deployment, injected soft and fail-stop faults, rollback failure manager)
         from harness.props.c16 import PROP as P16
@@ -338,6 +342,16 @@ class C07(netlib.Guarded, Prop):
         return out
 
     def impl_run(self, c):
+        if c["f"] == "ids":
+            from streamflow.core.persistence import PersistableEntity
+            from streamflow.core.utils import get_entity_ids
+
+            ents = []
+            for i in c["l"]:
+                e = PersistableEntity()
+                e.persistent_id = i
+                ents.append(e)
+            return {"ret": "ok", "r": list(get_entity_ids(ents)), "r_none": list(get_entity_ids(None))}
         if c["f"] == "recov":
             return self._run_recov(c)
         o = netlib.run_net(self.env, c, want_db=True)
@@ -351,6 +365,11 @@ class C07(netlib.Guarded, Prop):
             return None                     # the wall-clock guard expired twice: no verdict
         if "crash" in o:
             return ("crash", f"the harness could not contain the run: {str(o)[:300]}")
+        if c["f"] == "ids":
+            # the ids of the persisted entities, in order (rowids start at 1: lists containing 0 are not judged)
+            if 0 not in c["l"] and (o["r"] != [i for i in c["l"] if i is not None] or o["r_none"] != []):
+                return ("entity-ids", f"get_entity_ids on ids {c['l']} returned {o['r']}")
+            return None
         if c["f"] == "recov" and o["ret"] == "hang":
             # the recovery driver (b-recovery's, reused read-only) only has a wall-clock limit: not a verdict here
             self.no_verdict += 1
@@ -505,6 +524,9 @@ class C07(netlib.Guarded, Prop):
         o = self.resolve(c, o)
         if o is None or "crash" in o or o.get("ret") == "hang":
             return None
+        if c["f"] == "ids":
+            l = coq_list(["None" if i is None else f"(Some {coq_N(i)})" for i in c["l"]])
+            return f"CEntityIds {l} {coq_list([coq_N(i) for i in o['r']])}"
         if c["f"] == "recov":
             if "tokens" not in o:
                 return None
@@ -531,6 +553,8 @@ class C07(netlib.Guarded, Prop):
         return f"CProv {toks} {edges} {ex} {coq_bool(self.oracle(c, o) is None)}"
 
     def nontrivial(self, c):
+        if c["f"] == "ids":
+            return len(c["l"]) >= 2
         if c["f"] == "recov":
             return True
         return sum(len(v) for v in c["inputs"].values()) * len(c["steps"]) >= 3
@@ -540,6 +564,8 @@ class C07(netlib.Guarded, Prop):
 
     def signature(self, c, o, clause):
         o = self.resolve(c, o) or {}
+        if c["f"] == "ids":
+            return f"ids/{clause}"
         if c["f"] == "recov":
             return f"recov/{clause}/{c['shape']['kind']}"
         kinds = sorted({s["k"] for s in c["steps"]})
@@ -561,6 +587,10 @@ class C07(netlib.Guarded, Prop):
         return "job-pairing"
 
     def shrink(self, c):
+        if c["f"] == "ids":
+            for i in range(len(c["l"])):
+                yield {**c, "l": c["l"][:i] + c["l"][i + 1:]}
+            return
         if c["f"] == "recov":
             for i in range(len(c["faults"])):
                 if len(c["faults"]) > 1:
@@ -584,7 +614,7 @@ class _Two(C07):
 
     def coq_case(self, c, o):
         a = super().coq_case(c, o)
-        if a is None or c["f"] == "recov":
+        if a is None or c["f"] in ("recov", "ids"):
             return a
         b = super().coq_case({**c, "_disc": True}, o)
         t = a if b is None else f"CAnd ({a}) ({b})"
